@@ -65,9 +65,9 @@ func (c *lateCtx) AfterFunc(f func()) func() bool {
 func init() {
 	Register(&Check{
 		Spec: core.Spec{ID: "C08", Level: "exploration",
-			Rule:        "case = started engine with small flush limits; a flush-path store call (k-th CreateFile/Write/Close/Update) is held at a gate that ignores contexts and/or done channels are abandoned unbuffered, producers keep ingesting (some blocked on the full ingest buffer), then Stop is called with a deadline context (WithTimeout, WithCancel cancelled by hand, a foreign context type with its own Done channel whose AfterFunc runs callbacks late, an already-expired context) or without wedges and no deadline. Checked: callers that start after the stop.flagged hook fired get ErrEngineStopped; Stop returns on its own (the gate stays shut until Stop returned or deadline + 8 s); after a deadline error no CreateFile starts and no flush begun afterwards reaches Update; once the harness unwedges the stores every waiter with channel capacity has exactly one value; Stop == nil implies every accepted batch answered. non-trivial = Stop call that overlapped a wedged flush or producers; distinct = distinct (wedge, context kind, gate position, schedule signature)",
+			Rule:        "case = started engine with small flush limits; a flush-path store call (k-th CreateFile/Write/Close/Update) is held at a gate that ignores contexts and/or done channels are abandoned unbuffered, producers keep ingesting (some blocked on the full ingest buffer), then Stop is called with a deadline context (WithTimeout, WithCancel cancelled by hand, a foreign context type with its own Done channel whose AfterFunc runs callbacks late, an already-expired context) or without wedges and no deadline. With an unreachable backend (from the k-th call on every flush-path store call blocks until its context is done, and stays so after Stop returned) the deadline abort alone must unwind both workers and answer every waiter with channel capacity while the store is still unreachable. Checked: callers that start after the stop.flagged hook fired get ErrEngineStopped; Stop returns on its own (the gate stays shut until Stop returned or deadline + 8 s); after a deadline error no CreateFile starts and no flush begun afterwards reaches Update; once the harness unwedges the stores every waiter with channel capacity has exactly one value; Stop == nil implies every accepted batch answered. non-trivial = Stop call that overlapped a wedged flush or producers; distinct = distinct (wedge, context kind, gate position, schedule signature)",
 			Assumptions: []string{"a flush already inside a store call when the deadline fired may finish (its later Close/Update are 'finishing', not starting)", "wall clock only in the 8 s bound, three orders of magnitude from both correct (ms) and broken (never) behaviour"},
-			Floors:      map[string]int64{"histories": 60, "stop_deadline_errors": 25, "late_callers_checked": 60, "ctx.late-afterfunc": 8}},
+			Floors:      map[string]int64{"histories": 60, "stop_deadline_errors": 25, "late_callers_checked": 60, "ctx.late-afterfunc": 8, "unreachable_backend_histories": 8}},
 		Cases:       func(t string) int { return nQueries(t, 96, 3000) },
 		Run:         runC08,
 		RaceMatters: true,
@@ -89,7 +89,7 @@ func runC08(rc *RunCtx, i int) {
 	clock := env.clock
 	led := env.led
 
-	wedge := core.Pick(r, []string{"gate", "gate", "gate", "abandoned-chan", "gate+abandoned", "none"})
+	wedge := core.Pick(r, []string{"gate", "gate", "gate", "abandoned-chan", "gate+abandoned", "none", "unreachable", "unreachable"})
 	ctxKind := core.Pick(r, []string{"timeout", "timeout", "cancel", "late-afterfunc", "late-afterfunc", "expired"})
 	if wedge == "none" {
 		ctxKind = core.Pick(r, []string{"background", "timeout-long"})
@@ -99,9 +99,14 @@ func runC08(rc *RunCtx, i int) {
 	if gateKind == "Write" {
 		gateN = r.Range(0, 6)
 	}
-	gate := stores.NewGate(false)
+	// "unreachable": from the trigger call on, every flush-path store call blocks until its
+	// context is done (a backend that went away behind a client that honours contexts; writers
+	// are bound to the context CreateFile got). The store stays that way after Stop returned.
+	unreach := wedge == "unreachable"
+	gate := stores.NewGate(unreach)
 	var gateHit atomic.Bool
-	useGate := strings.Contains(wedge, "gate")
+	tripped := false
+	useGate := strings.Contains(wedge, "gate") || unreach
 	pr := r.Split("plan")
 	var pmu sync.Mutex
 	env.log.Plan = &stores.Plan{Decide: func(c *stores.Call) stores.Action {
@@ -111,6 +116,10 @@ func runC08(rc *RunCtx, i int) {
 		if useGate && c.Kind == gateKind && c.N == gateN {
 			a.Gate = gate
 			gateHit.Store(true)
+			tripped = true
+		}
+		if unreach && tripped && flushPathKinds[c.Kind] {
+			a.Gate = gate
 		}
 		if pr.Intn(8) == 0 {
 			a.Delay = time.Duration(pr.Range(10, 200)) * time.Microsecond
@@ -279,6 +288,47 @@ func runC08(rc *RunCtx, i int) {
 	}
 	stopElapsed := time.Since(stopStart)
 	stopRet := clock.Tick()
+	// The backend is still unreachable: the deadline abort alone must unwind the pipeline and
+	// tell every waiter that can receive. (A store that ignores contexts cannot be unwound; there
+	// only Stop's own return is demanded.)
+	if unreach && returnedOnItsOwn && stopErr != nil && gateHit.Load() {
+		silent, alive, dump := 0, true, ""
+		for t := 0; t < 400; t++ {
+			silent = 0
+			for _, o := range led.snapshot() {
+				if !o.returned.Load() {
+					continue // still inside IngestRows: its fields are the producer's
+				}
+				o.collect(clock)
+				o.mu.Lock()
+				acc, ch := o.accepted, o.Chan
+				o.mu.Unlock()
+				if o.Kind == "ingest" && acc && ch == "buffered" && o.nAns.Load() == 0 {
+					silent++
+				}
+			}
+			alive, dump = workerFramesAlive()
+			if silent == 0 && !alive {
+				break
+			}
+			time.Sleep(25 * time.Millisecond)
+		}
+		rc.Res.Count("unreachable_backend_histories", 1)
+		if silent > 0 || alive {
+			blockedInStore := strings.Contains(dump, "stores.(*Gate).wait")
+			gate.Open()
+			<-stopDone
+			if blockedInStore {
+				pwg.Wait()
+				desc["ops"] = viewOps(led.snapshot())
+				rc.Violate(i, "waiters-silent-after-stop-deadline", "", fmt.Sprintf("10 s after Stop returned its deadline error, with the backend still unreachable (every store call blocks until its context is done), %d accepted batch(es) with a buffered done channel have no answer and a worker is blocked inside a store call whose context was not cancelled by the deadline", silent), map[string]any{"history": desc, "dump": core.Trunc(dump, 6000), "store_calls": tailCalls(env.log.Snapshot(), 30)})
+			} else {
+				rc.Res.Inconc("C08 unreachable-backend phase: pipeline not unwound after 10 s, no worker inside a store call")
+			}
+			led.close()
+			return
+		}
+	}
 	// unwedge: from here on the stores are responsive
 	gate.Open()
 	if !returnedOnItsOwn {
